@@ -322,3 +322,28 @@ def multistudy_histories(rng, n):
             ops.append({"a": "get_all_trials", "s": s, "states": ["ALL"], "dc": 1, "as_list": 0})
         out.append({"hid": f"ms{i}", "ops": ops})
     return out
+
+
+def compat_histories(rng, n):
+    """'a parameter name has ONE kind of distribution per study, whichever trial recorded it first': three unfinished trials;
+    one of them records `x`, then another one (older or newer) records `x` with a second distribution, compatible or not;
+    a third write follows.  n = how many of the 6 x 64 (trial order x distribution pair) combinations are taken."""
+    import itertools
+    import random
+
+    toks = [t for t, _ in sd.dists()]
+    combos = [(a, b, d1, d2) for a, b in itertools.permutations([1, 2, 3], 2) for d1 in toks for d2 in toks]
+    r = random.Random(rng.getrandbits(48))
+    r.shuffle(combos)
+    out = []
+    for i, (a, b, d1, d2) in enumerate(combos[:n]):
+        c = ({1, 2, 3} - {a, b}).pop()
+        ops = [{"a": "create_study", "name": "A", "dirs": [0]}] + [{"a": "create_trial", "s": 1, "tm": {"has": 0}} for _ in range(3)]
+        ops.append({"a": "set_param", "t": a, "name": "x", "v": r.choice(sd.param_vals_for(d1)), "d": d1})
+        ops.append({"a": "set_param", "t": b, "name": "x", "v": r.choice(sd.param_vals_for(d2)), "d": d2})
+        ops.append({"a": "get_trial", "t": b})
+        d3 = r.choice([d1, d2])
+        ops.append({"a": "set_param", "t": c, "name": "x", "v": r.choice(sd.param_vals_for(d3)), "d": d3})
+        ops.append({"a": "get_all_trials", "s": 1, "states": ["ALL"], "dc": 1, "as_list": 0})
+        out.append({"hid": f"cp{i}", "ops": ops})
+    return out
